@@ -15,7 +15,15 @@ cases = json.load(open(sys.argv[2]))
 for c in cases:
     out = []
     try:
-        g = Grammar.from_string(c["grammar"])
+        if "files" in c:
+            import os, tempfile, shutil
+            d = tempfile.mkdtemp(prefix="pgverif-c16w-")
+            for name, text in c["files"].items():
+                open(os.path.join(d, name), "w").write(text)
+            g = Grammar.from_file(os.path.join(d, c["root"]))
+            shutil.rmtree(d, ignore_errors=True)
+        else:
+            g = Grammar.from_string(c["grammar"])
         for lr1 in (LR_1, LR_0):
             for ps in (False, True):
                 t = create_table(g, lr1, 1, ps, ps)
